@@ -72,7 +72,9 @@ func zzHandler(nw *zzNet, own int, clk *zzfake.Clock, store CallbackStore, clien
 	cs := &chainStore{CallbackStore: store, l: l, conf: conf, client: client, crypto: v,
 		newPartials: make(chan partialInfo, defaultPartialChanBuffer), catchupBeacons: make(chan *common.Beacon, 1),
 		beaconStoredAgg: make(chan *common.Beacon, defaultNewBeaconBuffer), ctx: context.Background()}
-	return &Handler{conf: conf, client: client, crypto: v, chain: cs, addr: nw.group.Nodes[own].Address(), l: l, ctx: context.Background(),
+	tk := &ticker{clock: clk, period: nw.group.Period, genesis: nw.group.GenesisTime, newCh: make(chan channelInfo, tickerChanBacklog), stop: make(chan bool, 1)}
+	cs.ticker = tk
+	return &Handler{conf: conf, client: client, crypto: v, chain: cs, ticker: tk, addr: nw.group.Nodes[own].Address(), l: l, ctx: context.Background(),
 		version: common.GetAppVersion(), thresholdMonitor: metrics.NewThresholdMonitor(nw.group.ID, l, nw.group.Len(), nw.group.Threshold)}
 }
 
